@@ -202,12 +202,13 @@ func genPod(r *u.Rng, malformed bool) podSpec {
 	switch {
 	case shape <= 3:
 		p.Ann["gpu-fraction"] = frac()
-		if r.Chance(1, 3) {
+		if r.Chance(1, 2) {
 			p.Ann["gpu-fraction-num-devices"] = ndev()
 		}
 	case shape <= 5:
+		// a gpu-memory request over several devices has no gpu-fraction annotation (seeded/C19-5)
 		p.Ann["gpu-memory"] = mem()
-		if r.Chance(1, 3) {
+		if r.Chance(3, 5) {
 			p.Ann["gpu-fraction-num-devices"] = ndev()
 		}
 	case shape <= 7:
@@ -651,6 +652,18 @@ func corpus() []podSpec {
 			out = append(out, q)
 		}
 	}
+	// the number of devices (seeded/C19-5): the README pod (gpu-memory 2000 on 2 devices) and its controls; the binder
+	// has to label the pod once per selected GPU group
+	for _, ann := range []map[string]string{
+		{"gpu-memory": "2000", "gpu-fraction-num-devices": "2"}, {"gpu-fraction": "0.2", "gpu-fraction-num-devices": "2"},
+		{"gpu-memory": "2000"}, {"gpu-memory": "2000", "gpu-fraction-num-devices": "1"}, {"gpu-fraction": "0.2", "gpu-fraction-num-devices": "1"},
+		{"gpu-memory": "512", "gpu-fraction-num-devices": "8"}, {"gpu-fraction": "0.5", "gpu-fraction-num-devices": "3"},
+		{"gpu-memory": "2000", "gpu-fraction-num-devices": "+2"}, {"gpu-memory": "2000", "gpu-fraction-num-devices": "02"}} {
+		q := podSpec{Ann: ann, Name: "trainer", Enabled: true, Containers: []cont{{Name: "main"}}}
+		q.Bind = bindPlan{Legacy: true, Rounds: []grant{{Ids: []string{"0", "1", "2", "3", "4", "5", "6", "7"}, NodeGpuMemory: 16384},
+			{Ids: []string{"5", "2", "7", "0", "1", "3", "4", "6"}, NodeGpuMemory: 40960}}}
+		out = append(out, q)
+	}
 	return out
 }
 
@@ -685,8 +698,10 @@ func Run(dir string, seed uint64, n int) error {
 		label := fmt.Sprintf("%s ann=%q enabled=%v containers=%d inits=%d names=%q init_names=%q", origin, p.Ann, p.Enabled,
 			len(p.Containers), len(p.Inits), names(p.Containers), names(p.Inits))
 		if o.Binder != nil {
-			label += fmt.Sprintf(" binder: selected=%s#%d(%q)", o.Binder.RefType, o.Binder.RefIndex, o.Binder.RefName)
+			label += fmt.Sprintf(" binder: selected=%s#%d(%q) devices{scheduler=%d binder=%d%s multi=%v}", o.Binder.RefType, o.Binder.RefIndex, o.Binder.RefName,
+				o.Binder.SchedDevices, o.Binder.BinderDevices, o.Binder.BinderDevErr, o.Binder.IsMulti)
 			for _, ro := range o.Binder.Rounds {
+				label += fmt.Sprintf(" labels{selected=%q labels=%q reread=%q}", ro.Labels.Selected, ro.Labels.Labels, ro.Labels.Reread)
 				label += fmt.Sprintf(" grant{cdi=%v devices=%q node_gpu_memory=%d scheduler: accepted_portion=%v bindrequest{type=%s count=%d portion=%q groups=%d} prebind_ok=%v portion_exact=%v}",
 					ro.Grant.Cdi, ro.Grant.Ids, ro.Grant.NodeGpuMemory, ro.Sched.AcceptedPortion, ro.Sched.ReceivedType, ro.Sched.Count, ro.Sched.Portion,
 					len(ro.Sched.Groups), ro.Ok, ro.PortionExact)
@@ -717,6 +732,29 @@ func Run(dir string, seed uint64, n int) error {
 				out.Count("binder:multi-container pod")
 			}
 			out.Count(fmt.Sprintf("binder:rounds=%d", len(b.Rounds)))
+			// the number of devices: request kind x (one | several) devices, as the scheduler read it
+			several := "1 device"
+			if b.SchedDevices > 1 {
+				several = "k>1 devices"
+			}
+			out.Count("devices:admitted " + o.Type + " request on " + several)
+			if b.SchedDevices > 1 {
+				_, withNum := p.Ann["gpu-fraction-num-devices"]
+				out.Count(fmt.Sprintf("devices:admitted multi-device %s request (num-devices annotation=%v)", o.Type, withNum))
+			}
+			out.Count(fmt.Sprintf("devices:binder IsMultiFraction=%v", b.IsMulti))
+			if b.BinderDevErr != "" || b.BinderDevices != b.SchedDevices {
+				out.Count("devices:binder's count differs from the scheduler's")
+			}
+			for _, ro := range b.Rounds {
+				out.Count(fmt.Sprintf("devices:selected groups=%d", len(ro.Labels.Selected)))
+				if len(ro.Labels.Labels) != len(ro.Labels.Selected) {
+					out.Count("devices:fewer GPU-group labels than selected groups")
+				}
+				if !ro.Labels.Ok {
+					out.Count("devices:reservation step failed")
+				}
+			}
 			if len(b.Pre) > 0 {
 				out.Count("binder:config maps exist before PreBind")
 			}
@@ -832,6 +870,6 @@ func Run(dir string, seed uint64, n int) error {
 			fmt.Println(string(data))
 		}
 	}
-	out.Stats["rule"] = "pods drawn from one splitmix64 stream (2/3 structured mostly-valid, 1/3 malformed annotation strings from a grammar-directed corpus: decimal, exponent, hex-float, NaN/Inf, signs, whitespace, overflow) after a fixed boundary corpus; non-trivial = carries a GPU annotation or a whole-GPU limit; distinct by (annotations, sharing flag, verdict, container counts). Per-container selection: on half of the sharing pods gpu-fraction-container-name names a regular container, an init container, a name shared by both, a name nobody carries or the empty name (distribution keys fraction_container / binder:*); for every pod admission accepts as a sharing request the real GetFractionContainerRef and the binder gpusharing PreBind (fake client, 1-2 grants, with and without pre-existing config maps, with and without CDI names) run on the mutated pod and the environment of every container is resolved from the ConfigMaps read back"
+	out.Stats["rule"] = "pods drawn from one splitmix64 stream (2/3 structured mostly-valid, 1/3 malformed annotation strings from a grammar-directed corpus: decimal, exponent, hex-float, NaN/Inf, signs, whitespace, overflow) after a fixed boundary corpus; non-trivial = carries a GPU annotation or a whole-GPU limit; distinct by (annotations, sharing flag, verdict, container counts). Per-container selection: on half of the sharing pods gpu-fraction-container-name names a regular container, an init container, a name shared by both, a name nobody carries or the empty name (distribution keys fraction_container / binder:*); for every pod admission accepts as a sharing request the real GetNumGPUFractionDevices / IsMultiFraction, the real reservation service's ReserveGpuDevice per selected GPU group (fake client with the groups' reservation pods; the labelled pod is re-read with NewTaskInfo; distribution keys devices:*; gpu-memory and gpu-fraction requests carry a device count on 3/5 resp. 1/2 of the structured pods), the real GetFractionContainerRef and the binder gpusharing PreBind (fake client, 1-2 grants, with and without pre-existing config maps, with and without CDI names) run on the mutated pod and the environment of every container is resolved from the ConfigMaps read back"
 	return out.Flush()
 }
